@@ -415,12 +415,14 @@ class Image:
         # ! ---- Update time
 
         # Time in datetime format
+        # NOTE: Build new lists (no in-place extension): the current lists may be shared
+        # with other images, e.g. a subregion shares them with its parent via metadata().
         if not isinstance(self.date, list):
             self.date = [self.date]
         if isinstance(image.date, list):
             self.date = self.date + image.date
         else:
-            self.date.append(image.date)
+            self.date = self.date + [image.date]
 
         # Relative time - combine internal stored times
         dates_available = not (self._is_none(self.date) or self._is_none(image.date))
@@ -437,7 +439,7 @@ class Image:
             if isinstance(image.time, list):
                 time = time + [t + shift for t in image.time]
             else:
-                time.append(image.time + shift)
+                time = time + [image.time + shift]
 
         # Specs
         self.time_dim = 1
